@@ -223,6 +223,8 @@ def py_key(v):
         return ('num', 2 * int(v[1]))
     if v[0] == 'float':
         return ('num', v[1])
+    if v[0] == 'obj' and v[1] == 'complex' and not v[2]:
+        return ('num', 0)           # complex() == 0 == 0.0 == False: one dictionary key
     return json.dumps(v)
 
 
